@@ -130,9 +130,7 @@ fn apply<const B: usize, const L: usize>(op: u64, a: Uint<B, L>, b: Uint<B, L>, 
         }),
         64 => ("wrapping_from(Uint<100>)", {
             let src = Uint::<100, 2>::from_limbs([!k, k & 0xf_ffff_ffff]);
-            let mut v = vec![Uint::wrapping_from(src), Uint::saturating_from(src)];
-            v.extend(<Uint<B, L> as ruint::UintTryFrom<_>>::uint_try_from(src).ok());
-            v
+            vec![Uint::wrapping_from(src), Uint::saturating_from(src)]
         }),
         65 => ("wrapping_from(Uint<64>)", vec![Uint::wrapping_from(Uint::<64, 1>::from_limbs([k])), Uint::saturating_from(Uint::<63, 1>::from_limbs([k >> 1]))]),
         66 => ("wrapping_from_limbs_slice", {
